@@ -365,9 +365,51 @@ def fixed_twins(ctx):
                                   {'label': 'fixed-twin', 'texts': [first, second]})
 
 
+VERBATIM = [
+    # (statement text, texts of string literals that the tree must carry exactly as written -- also where the literal is kept in a
+    #  node of its own kind: a subscript key, the account pattern of JOURNAL)
+    ("SELECT meta['invoiceNo'], entry.meta[\"Ref-ID\"] FROM #postings", ['invoiceNo', 'Ref-ID']),
+    ('JOURNAL "Assets:Bank:Checking" AT cost', ['Assets:Bank:Checking']),
+    ("JOURNAL 'Expenses:Food|Rent' FROM year = 2020", ['Expenses:Food|Rent']),
+    ("SELECT x['Key']['Sub Key'] FROM #t", ['Key', 'Sub Key']),
+    ('SELECT "MiXed", \'UPPER lower\', f("Arg") FROM #t WHERE s ~ "^Assets:" AND t IN ("A", \'b\')', ['MiXed', 'UPPER lower', 'Arg', '^Assets:', 'A', 'b']),
+    ('SELECT a AS alias_ FROM #t ORDER BY alias_', ['alias_']),
+]
+
+
+def verbatim_part(ctx):
+    from beanquery import parser as bqparser
+    def strings_of(node, out):
+        if isinstance(node, str):
+            out.append(node)
+        elif isinstance(node, (list, tuple)):
+            for x in node:
+                strings_of(x, out)
+        elif hasattr(node, '__dataclass_fields__'):
+            for f in node.__dataclass_fields__:
+                strings_of(getattr(node, f), out)
+        return out
+    for text, expected in VERBATIM:
+        for label, parse in (('shipped', bqparser.parse),):
+            try:
+                tree = parse(text)
+            except Exception as exc:  # noqa: BLE001
+                ctx.violation('c06.verbatim_statement_rejected', f'{text}: {label} parser: {type(exc).__name__}: {exc}', {'label': 'verbatim', 'text': text})
+                continue
+            found = strings_of(tree, [])
+            ctx.count('obs.verbatim_literal_checks', len(expected))
+            ctx.case(('verbatim', text, label), True)
+            missing = [x for x in expected if x not in found]
+            if missing:
+                ctx.violation('c06.string_not_kept_verbatim', f'{text}: the tree of the {label} parser carries {sorted(set(found))}; the literal(s) {missing} are not among them',
+                              {'label': 'verbatim', 'text': text})
+
+
 def run(ctx):
     engine.bq()
     ir.AST_PLACEHOLDERS = True
+    if ctx.shard == 0:
+        verbatim_part(ctx)
     derived_parser()
     ctx.count('obs.generated_parser_source_identical', 1 if _derived.get('identical_source') else 0)
     if not _derived.get('identical_source'):
